@@ -235,3 +235,81 @@ Example C10_example_reset_without_time_translator :
   let fs := [FStash; FTk; FLast; FDstart; FPop; FPaint; FRoll; FActive; FQueue; FTime] in
   covers fs = false /\ covers (FTc :: FFrames :: fs) = true.
 Proof. split; reflexivity. Qed.
+
+(* ==== round 4: the instance state of the SAMI / DFXP / MicroDVD / WebVTT reader objects (model/ReaderReuse.v) ==================
+   Only the per-object scratch state is modelled (not the parsing of the text): `par` = paragraphs with SAMIReader.line /
+   first_alignment or DFXPReader.nodes, `mdvd` = the frame rate, `vtt` = the previous cue's start under the constructor options.
+   The state survives read() - also one that raised half way; `fs` = the resets the code performs. *)
+From PV Require Import model.ReaderReuse proofs.ReaderReuseFacts.
+
+(* SAMI / DFXP: with `self.line = []` (`self.nodes = []`) and `self.first_alignment = None` BEFORE each paragraph, every history of
+   documents on one object - raising ones included, from any initial state - gives the fresh-object results *)
+Theorem C10_par_reader_history_isolated : forall fs docs s,
+  pcovers fs = true -> par_history fs s docs = map par_fresh docs.
+Proof. exact par_history_isolated. Qed.
+Print Assumptions C10_par_reader_history_isolated.
+
+(* the resets of the code cover; the reset of first_alignment AFTER the paragraph is redundant *)
+Theorem C10_par_code_reset_covers : pcovers par_code_reset = true /\ pcovers [PLine; PFaPre] = true.
+Proof. exact par_code_reset_covers. Qed.
+Print Assumptions C10_par_code_reset_covers.
+
+(* partial resets, two-document witnesses: no `line = []` -> the first caption of document 2 starts with the nodes of document 1's
+   last caption; no alignment reset at all -> document 1's alignment positions document 2; only the reset AFTER the paragraph
+   -> a document that raises after an inline text-align leaks it (and only such a document does) *)
+Theorem C10_par_partial_resets_refuted :
+  par_history [PFaPre; PFaPost] pstate0 [pd_text 1; pd_text 2] <> map par_fresh [pd_text 1; pd_text 2] /\
+  par_history [PLine] pstate0 [pd_aligned; pd_text 2] <> map par_fresh [pd_aligned; pd_text 2] /\
+  par_history [PLine; PFaPost] pstate0 [pd_raises_after_align; pd_text 2] <> map par_fresh [pd_raises_after_align; pd_text 2] /\
+  par_history [PLine; PFaPost] pstate0 [pd_aligned; pd_text 2] = map par_fresh [pd_aligned; pd_text 2] /\
+  par_history [PLine; PFaPre] pstate0 [pd_raises_after_align; pd_text 2] = map par_fresh [pd_raises_after_align; pd_text 2].
+Proof. exact par_partial_resets_refuted. Qed.
+Print Assumptions C10_par_partial_resets_refuted.
+
+(* MicroDVD: `fps = Fraction(25)` at the top of read() *)
+Theorem C10_mdvd_reader_history_isolated : forall fs docs s,
+  mcovers fs = true -> mdvd_history fs s docs = map mdvd_fresh docs.
+Proof. exact mdvd_history_isolated. Qed.
+Print Assumptions C10_mdvd_reader_history_isolated.
+
+Theorem C10_mdvd_no_reset_refuted :
+  mdvd_history [] mstate0 [md_ntsc; md_plain] <> map mdvd_fresh [md_ntsc; md_plain] /\
+  mdvd_history [] mstate0 [md_header_then_bad; md_plain] <> map mdvd_fresh [md_header_then_bad; md_plain] /\
+  mdvd_history [MFps] mstate0 [md_header_then_bad; md_plain] = map mdvd_fresh [md_header_then_bad; md_plain].
+Proof. exact mdvd_no_reset_refuted. Qed.
+Print Assumptions C10_mdvd_no_reset_refuted.
+
+(* WebVTT: the previous cue's start begins at 0 in every read(), for every option combination *)
+Theorem C10_vtt_reader_history_isolated : forall o fs docs s,
+  vcovers fs = true -> vtt_history o fs s docs = map (vtt_fresh o) docs.
+Proof. exact vtt_history_isolated. Qed.
+Print Assumptions C10_vtt_reader_history_isolated.
+
+(* with ignore_timing_errors=True (the default) no reset is needed: the previous start is never consulted *)
+Theorem C10_vtt_lenient_needs_no_reset : forall o fs docs s,
+  v_strict o = false -> vtt_history o fs s docs = map (vtt_fresh o) docs.
+Proof. exact vtt_lenient_needs_no_reset. Qed.
+Print Assumptions C10_vtt_lenient_needs_no_reset.
+
+(* ignore_timing_errors=False without the reset: document 2 starting before document 1's last cue is refused; the same document
+   twice (with a time shift); after a read that raised mid-way *)
+Theorem C10_vtt_no_reset_refuted :
+  vtt_history (strict 0) [] vstate0 [vd_late; vd_early] <> map (vtt_fresh (strict 0)) [vd_late; vd_early] /\
+  vtt_history (strict 500000) [] vstate0 [vd_late; vd_late] <> map (vtt_fresh (strict 500000)) [vd_late; vd_late] /\
+  vtt_history (strict 0) [] vstate0 [vd_raises_midway; vd_early] <> map (vtt_fresh (strict 0)) [vd_raises_midway; vd_early] /\
+  vtt_history (strict 0) [VPrev] vstate0 [vd_raises_midway; vd_early] = map (vtt_fresh (strict 0)) [vd_raises_midway; vd_early].
+Proof. exact vtt_no_reset_refuted. Qed.
+Print Assumptions C10_vtt_no_reset_refuted.
+
+(* the generic statement all of the above (and C10_scc_reader_history_isolated) instantiate: ANY reader object whose read() is
+   the fresh read under a covering reset; the same document read twice at any two places of a history gives the same result *)
+Theorem C10_reader_object_same_document_same_result :
+  forall (S D R F : Type) (prepare : list F -> S -> S) (consume : list F -> S -> D -> S * R) (fresh : D -> R)
+         (covers : list F -> bool),
+  (forall fs s d, covers fs = true -> snd (obj_read S D R F prepare consume fs s d) = fresh d) ->
+  forall fs before between after d s,
+  covers fs = true ->
+  let rs := obj_history S D R F prepare consume fs s (before ++ d :: between ++ d :: after) in
+  nth_error rs (length before) = nth_error rs (length before + Datatypes.S (length between)).
+Proof. exact obj_history_same_document. Qed.
+Print Assumptions C10_reader_object_same_document_same_result.
